@@ -12,7 +12,7 @@ from ..model import AnalysisError, FunctionInfo, bind_args
 from ..roles import roles_of
 from ..terms import guard_extra, call_name, canon, cmp_normal, conjuncts, const_num, guard_canon, linear, norm_stmt, state_key
 from .c12 import ProvPolicy
-from .common import attr_stores, iter_stores, reaching_assignments, self_attr_of
+from .common import attr_stores, iter_stores, reaching_assignments, self_attr_of, pos
 
 EXPLANATION = (
     "R1 after the main loop every store to the incumbent tuple (u, yval, fval, fsd) is under the noisy-mode guard, so for deterministic targets "
@@ -62,10 +62,10 @@ def check(ctx):
     if not loops:
         raise AnalysisError("optimize() has no main loop")
     main = loops[0].stmt
-    end = max(getattr(n, "end_lineno", n.lineno) for n in ast.walk(main) if hasattr(n, "lineno"))
+    end = max(pos(n) for n in ast.walk(main))
     for t, v, s, k in iter_stores(opt.node):
         a = self_attr_of(t)
-        if a in GROUP + ("u_best",) and isinstance(t, ast.Attribute) and s.lineno > end:
+        if a in GROUP + ("u_best",) and isinstance(t, ast.Attribute) and pos(s) > end:
             g = guard_canon(prog, opt, s)
             noisy = any(x in ("(0 < OS[uncertainty_handling_level])", "(1 <= OS[uncertainty_handling_level])") for x in g)
             ctx.check(noisy, opt, s, f"post-loop store to self.{a} under the noisy-mode guard", f"after the main loop self.{a} is modified also for deterministic targets: the result no longer reports the incumbent found", construct=f"post-loop store self.{a} <- {canon(v)[:50]}")
@@ -122,7 +122,7 @@ def check(ctx):
                 for atom, coef in lt.items():
                     sub = None
                     for t2, v2, s2, k2 in iter_stores(imp.node):
-                        if isinstance(t2, ast.Name) and t2.id == atom and s2.lineno < s.lineno:
+                        if isinstance(t2, ast.Name) and t2.id == atom and pos(s2) < pos(s):
                             sub = v2
                     if sub is not None:
                         l2, c2 = linear(sub)
